@@ -195,3 +195,28 @@ def tlaps(module_path, same_defs_as=None, def_names=(), timeout=600):
         raise MachineryError("tlapm gave no verdict:\n" + p.stdout[-1500:])
     finally:
         shutil.rmtree(tmp, ignore_errors=True)
+
+
+def apalache_inductive(module_path, *, init="IndInit", inv="Inv", nxt="Next", mutate=None, timeout=1800):
+    """apalache-mc check --init=IndInit --inv=Inv --length=1 on a (scratch copy of a) typed module.
+    mutate: optional list of (old, new) text substitutions applied to the copy (negative controls).  Returns "NoError" | "Error"."""
+    tmp = scratch("verif-apa-")
+    try:
+        src = open(module_path).read()
+        for a, b in (mutate or ()):
+            if a not in src:
+                raise MachineryError(f"negative-control substitution not applicable to {module_path}: {a}")
+            src = src.replace(a, b)
+        dst = os.path.join(tmp, os.path.basename(module_path))
+        with open(dst, "w") as f:
+            f.write(src)
+        p = subprocess.run(["apalache-mc", "check", f"--init={init}", f"--inv={inv}", f"--next={nxt}", "--length=1",
+                            f"--out-dir={os.path.join(tmp, 'out')}", os.path.basename(module_path)],
+                           cwd=tmp, stdout=subprocess.PIPE, stderr=subprocess.STDOUT, text=True, timeout=timeout)
+        if "The outcome is: NoError" in p.stdout:
+            return "NoError"
+        if "The outcome is: Error" in p.stdout and "invariant" in p.stdout:
+            return "Error"
+        raise MachineryError("apalache gave no verdict:\n" + p.stdout[-1500:])
+    finally:
+        shutil.rmtree(tmp, ignore_errors=True)
